@@ -610,6 +610,9 @@ func ruleHdrDecoder(c *Ctx, r *RuleResult, fnName string) {
 		}
 	}
 	for _, m := range []string{"s[0]:126", "s[1]:126"} {
+		if len(forms) == 0 {
+			break // the decoding as a whole was not recognised (undecided above): no verdict on its markers
+		}
 		r.inst("%s: marker test %s", fnName, m)
 		r.oblig(markers[m])
 		if !markers[m] {
